@@ -263,6 +263,67 @@ def streamRawC (t : Text) (o : Opts) : Option SResult :=
         else some ⟨r.1, ⟨r.2, 0⟩⟩
       | none => some ⟨r.1, ⟨r.2, 0⟩⟩
 
+/-! ## `OriginalSource::stream_chunks` (original_source.rs:107-232) -/
+
+/-- columns = true: `line += 1` (:146) and `column += token.len() as u32` (:149, a truncating cast then a checked addition) -/
+def origTokChunksC (final : Bool) : Nat → Nat → List Text → Option (List Ev × Info)
+  | l, c, [] => some ([], ⟨l, c⟩)
+  | l, c, tok :: toks =>
+    let eol := endsWithNL tok
+    let ev : List Ev :=
+      if eol && tok.length == 1 then
+        (if final then [] else [.chunk (some tok) ⟨l, c, none⟩])
+      else [.chunk (if final then none else some tok) ⟨l, c, some ⟨0, l, c, none⟩⟩]
+    if eol then
+      match add32 l 1 with                                      -- :146 `line += 1`
+      | none => none
+      | some l' =>
+        match origTokChunksC final l' 0 toks with
+        | none => none
+        | some r => some (ev ++ r.1, r.2)
+    else
+      match add32 c (tok.length % 2 ^ 32) with                  -- :149 `column += token.len() as u32`
+      | none => none
+      | some c' =>
+        match origTokChunksC final l c' toks with
+        | none => none
+        | some r => some (ev ++ r.1, r.2)
+
+/-- columns = false, normal mode: `line += 1` (:213) -/
+def origLineChunksC : Nat → List Text → Option (List Ev × Nat)
+  | l, [] => some ([], l)
+  | l, t :: ts =>
+    match add32 l 1 with                                        -- :213 `line += 1`
+    | none => none
+    | some l' =>
+      match origLineChunksC l' ts with
+      | none => none
+      | some r => some (.chunk (some t) ⟨l, 0, some ⟨0, l, 0, none⟩⟩ :: r.1, r.2)
+
+def streamOriginalC (t name : Text) (o : Opts) : Option SResult :=
+  let hd := Ev.source 0 name (some t)
+  if o.columns then
+    match origTokChunksC o.final 1 0 (tokens t) with
+    | none => none
+    | some r => some ⟨hd :: r.1, r.2⟩
+  else if o.final then
+    let gi := genInfo t
+    if gi.col == 0 then some ⟨hd :: origFinalLines 1 gi.line, gi⟩
+    else some ⟨hd :: origFinalLines 1 (gi.line + 1), gi⟩
+  else
+    let ls := splitLines t
+    match origLineChunksC 1 ls with
+    | none => none
+    | some r =>
+      match ls.getLast? with
+      | some last =>
+        if !endsWithNL last then
+          match sub r.2 1 with                                  -- :220 `line - 1`
+          | none => none
+          | some l => some ⟨hd :: r.1, ⟨l, last.length % 2 ^ 32⟩⟩
+        else some ⟨hd :: r.1, ⟨r.2, 0⟩⟩
+      | none => some ⟨hd :: r.1, ⟨r.2, 0⟩⟩
+
 /-- the four map-driven splitters, checked (`stream_chunks_of_source_map_final` has no partial operation: comparisons only) -/
 def streamSMC (t : Text) (sm : SMap) (o : Opts) : Option SResult :=
   match o.columns, o.final with
@@ -415,7 +476,7 @@ def _root_.Rs.Src.streamC (ovf : Bool) : Src → Opts → Store → Option (SRes
   | .raw _ _ lossy, o, σ => (streamRawC lossy o).map (·, σ)
   | .rawStr t, o, σ => (streamRawC t o).map (·, σ)
   | .rawBuf _ lossy, o, σ => (streamRawC lossy o).map (·, σ)
-  | .orig t name, o, σ => some (streamOriginal t name o, σ)
+  | .orig t name, o, σ => (streamOriginalC t name o).map (·, σ)
   | .sms t name map origSrc inner remove, o, σ =>
     match inner with
     | some im => some (streamCombined t map name origSrc im remove o, σ)
